@@ -157,6 +157,10 @@ def run_property(pid, rules_fn, level, explanation, assumptions, trusted_base, t
             print("  note: function `%s` fills the role of `%s` and is reported under that name" % (k, v.split("::")[-1]))
         for k, v in inlined.items():
             print("  note: normalised before the rules ran: `%s` (not in the reviewed tree) folded into %s" % (k, ", ".join(v)))
+        for k, v in getattr(ctx, "renamed_fields", {}).items():
+            print("  note: visitor field `%s` stands where `%s` stood and is reported under that name" % (k, v))
+        for k, v in getattr(ctx, "option_shaped_enums", {}).items():
+            print("  note: the state enum `%s` has the shape of Option and is read as one (%s)" % (k, ", ".join("%s as %s" % kv for kv in v.items())))
         for k, v in renamed_locals.items():
             print("  note: in %s the locals %s are reported under their reference names" % (k, ", ".join("`%s` as `%s`" % kv for kv in v.items())))
         print("VIOLATION property=%s replay=%s" % (pid, replay_path))
@@ -179,6 +183,8 @@ def run_property(pid, rules_fn, level, explanation, assumptions, trusted_base, t
         "functions_analysed_count": len(analysed),
         "new_helpers_inlined_into_callers": inlined,
         "locals_presented_under_reference_names": renamed_locals,
+        "fields_presented_under_reference_names": getattr(ctx, "renamed_fields", {}),
+        "option_shaped_state_enums_read_as_option": getattr(ctx, "option_shaped_enums", {}),
         "helpers_presented_under_reference_names": {k: v.split("::")[-1] for k, v in renamed.items()},
         "source_hash": h,
         "facts_freshly_extracted": extracted_now,
